@@ -12,7 +12,8 @@ CFGS = ("LL", "LU", "UU")
 def run(tier):
     ck = Check("C11", tier)
     rng = vlib.rng("c11")
-    cases = semgen.copy_cases(tier, rng) + semgen.stmt_cases(tier, rng)
+    own = semgen.ownership_cases(tier, rng)
+    cases = semgen.copy_cases(tier, rng) + semgen.stmt_cases(tier, rng) + (own if tier == "thorough" else rng.sample(own, 60))
     table = semgen.optable("thorough", rng)
     th = semgen.text_history_cases("quick", rng)
     if tier == "quick":
@@ -20,11 +21,11 @@ def run(tier):
         cases += must + rng.sample([c for c in table if c not in must], 250) + rng.sample(th, 20)
     else:
         cases += table + th
-    sigs = semrun.plan_cases(ck, cases, funcs=semgen.FUNCS, nearly=semgen.GLOBALS, label="C11 plan")
+    sigs = semrun.plan_cases(ck, cases, funcs=semgen.OWN_FUNCS, nearly=semgen.OWN_GLOBALS, label="C11 plan")
     okc = [c for c, s in zip(cases, sigs) if s == "ok"]
     per = 30
     batches = [okc[i:i + per] for i in range(0, len(okc), per)]
-    progs = [semgen.batch_program(b, "C11-%d" % i, funcs=semgen.FUNCS, nearly_stmts=semgen.GLOBALS) for i, b in enumerate(batches)]
+    progs = [semgen.batch_program(b, "C11-%d" % i, funcs=semgen.OWN_FUNCS, nearly_stmts=semgen.OWN_GLOBALS) for i, b in enumerate(batches)]
     srcs = [ddp.render(p) for p in progs]
     runner = ddp.Runner()
     results = runner.run_sources(srcs, opts=(0, 1, 2), cfgs=CFGS)
